@@ -29,7 +29,7 @@ ASSUMPTIONS = [
     'object keys do not look like the encoder\'s own type{...} tags; no NaN/Infinity floats; times are naive',
 ]
 BUDGET = {'quick': dict(examples=480, shards=8, seconds=75),
-          'thorough': dict(examples=16000, shards=16, seconds=1200)}
+          'thorough': dict(examples=40000, shards=16, seconds=1200)}
 
 TYPES = ['string', 'integer', 'number', 'boolean', 'date', 'time', 'datetime', 'duration', 'array', 'object', 'any']
 
